@@ -1,7 +1,1600 @@
-//! C02 — stub (not built yet).
+//! C02 — signed objects accepted iff digest, signature, EE cert, coverage.
+//!
+//! Objects come from two writers: the harness' independent RFC 5652/6488
+//! encoder (`der.rs`, signatures made with aws-lc-rs directly) and the
+//! library's own builders. Verdicts of the library are compared with an
+//! explicit model (conditions listed in the property statement); every
+//! library-built object is additionally verified by the harness' own CMS
+//! verifier (`der::CmsView::verify`).
 
+use std::sync::OnceLock;
+
+use bcder::encode::Values;
+use bcder::{Mode, Oid};
+use bytes::Bytes;
+use proptest::prelude::*;
+use rpki::crypto::DigestAlgorithm;
+use rpki::repository::aspa::{Aspa, AspaBuilder};
+use rpki::repository::cert::{Cert, KeyUsage, Overclaim, ResourceCert, TbsCert};
+use rpki::repository::error::{ValidationError, VerificationError};
+use rpki::repository::manifest::{FileAndHash, Manifest, ManifestContent};
+use rpki::repository::resources::{Asn, Prefix};
+use rpki::repository::roa::{Roa, RoaBuilder};
+use rpki::repository::sigobj::{SignedObject, SignedObjectBuilder};
+use rpki::repository::tal::TalInfo;
+use rpki::repository::x509::{Time, Validity};
+use rpki::uri;
+use serde::{Deserialize, Serialize};
+
+use crate::der::{self, oids, Cms, CmsOpts, RoaPfx, TimeEnc, Tm};
 use crate::engine::*;
+use crate::gen::{dense_u32, pick_idx, U128};
+use crate::keys::{self, PoolSigner, POOL_SIZE};
+
+pub const RULE: &str = "generic: independent-writer objects (der.rs) with content types ROA/MFT/ASPA/GBR or arbitrary OIDs of \
+1..40 octets (signed attributes 99..138 bytes, both sides of the 127/128 boundary), contents 0..4 KiB, all four \
+algorithm-identifier variants, UTCTime/GeneralizedTime signing time, EE resources missing/inherit/blocks (inside, equal, \
+outside the issuer; Refuse/Trim), evaluation time at -1s/edge/+1s/mid/far of the EE validity or through process() with a \
+CRL callback; plus one of 14 single-point tampers; oracle = accept iff (no tamper and time in window and EE resources \
+acceptable and callback Ok). roa/aspa/manifest: typed contents from the independent writer and from RoaBuilder / \
+AspaBuilder / ManifestContent::into_manifest; ROA prefixes drawn relative to the EE resources (equal, more specific, \
+wider, other, other family); oracle adds coverage by an interval model. built: SignedObjectBuilder::finalize with \
+arbitrary content types; oracle = harness' own CMS verifier (DER SET OF re-encoding + RSA via aws-lc-rs) accepts and the \
+library accepts iff in window. non-trivial = signed attributes >= 128 bytes, or typed content with >= 2 prefixes / \
+providers / entries, or any tamper.";
+
+pub const SIG_F12: &str = "sigattrs-long-form-length";
+
+//============ shared environment (also used by C14) ===========================
+
+pub fn ymd(y: i32, m: u32, d: u32) -> i64 {
+    Tm { year: y, month: m, day: d, hour: 0, min: 0, sec: 0 }.to_unix()
+}
+
+/// Library `Time` from Unix seconds via the harness' own calendar.
+pub fn lib_time(secs: i64) -> Time {
+    let t = Tm::from_unix(secs);
+    Time::utc(t.year, t.month, t.day, t.hour, t.min, t.sec)
+}
+
+pub fn rsync_uri() -> uri::Rsync {
+    uri::Rsync::from_slice(b"rsync://example.com/m/p").unwrap()
+}
+
+/// Issuer resources (the same for every pool key).
+pub const TA_V4: &[(u32, u8)] = &[(0x0A00_0000, 8), (0xC0A8_0000, 16)];
+pub const TA_V6: &[(u128, u8)] = &[(0x2001_0db8_0000_0000_0000_0000_0000_0000, 32)];
+pub const TA_AS: &[(u32, u32)] = &[(64496, 64511), (65000, 65010)];
+
+pub fn v4_bits(a: u32) -> u128 {
+    (a as u128) << 96
+}
+
+struct Env {
+    tas: Vec<ResourceCert>,
+}
+
+fn env() -> &'static Env {
+    static ENV: OnceLock<Env> = OnceLock::new();
+    ENV.get_or_init(|| {
+        let signer = PoolSigner::new();
+        let u = rsync_uri();
+        let mut tas = Vec::new();
+        for i in 0..POOL_SIZE {
+            let pk = signer.info(i);
+            let mut ta = TbsCert::new(
+                1u64.into(),
+                pk.to_subject_name(),
+                Validity::new(lib_time(ymd(2010, 1, 1)), lib_time(ymd(2090, 1, 1))),
+                None,
+                pk.clone(),
+                KeyUsage::Ca,
+                Overclaim::Refuse,
+            );
+            ta.set_basic_ca(Some(true));
+            ta.set_ca_repository(Some(u.clone()));
+            ta.set_rpki_manifest(Some(u.clone()));
+            ta.build_v4_resource_blocks(|b| {
+                for &(a, l) in TA_V4 {
+                    b.push(Prefix::new(v4_bits(a), l))
+                }
+            });
+            ta.build_v6_resource_blocks(|b| {
+                for &(a, l) in TA_V6 {
+                    b.push(Prefix::new(a, l))
+                }
+            });
+            ta.build_as_resource_blocks(|b| {
+                for &(lo, hi) in TA_AS {
+                    b.push((Asn::from_u32(lo), Asn::from_u32(hi)))
+                }
+            });
+            let cert = ta.into_cert(&signer, &signer.key(i)).expect("sign TA");
+            let cert = Cert::decode(cert.to_captured().as_slice()).expect("TA decodes");
+            let rc = cert
+                .validate_ta_at(TalInfo::from_name("verif".into()).into_arc(), true, lib_time(ymd(2026, 1, 1)))
+                .expect("TA validates");
+            tas.push(rc);
+        }
+        Env { tas }
+    })
+}
+
+/// The validated trust anchor held by pool key `idx`.
+pub fn ta(idx: usize) -> &'static ResourceCert {
+    &env().tas[idx % POOL_SIZE]
+}
+
+//------------ plain-data specs -------------------------------------------------
+
+#[derive(Clone, Copy, Debug, PartialEq, Eq, Serialize, Deserialize)]
+pub struct Pfx {
+    /// address, left-aligned in 128 bits (IPv4 in the top 32 bits)
+    pub bits: U128,
+    pub len: u8,
+}
+
+impl Pfx {
+    pub fn new(bits: u128, len: u8) -> Pfx {
+        let p = Pfx { bits: U128(bits), len };
+        Pfx { bits: U128(p.min()), len }
+    }
+    pub fn mask(self) -> u128 {
+        if self.len == 0 { u128::MAX } else if self.len >= 128 { 0 } else { u128::MAX >> self.len }
+    }
+    pub fn min(self) -> u128 {
+        self.bits.0 & !self.mask()
+    }
+    pub fn max(self) -> u128 {
+        self.min() | self.mask()
+    }
+    fn overlaps(self, o: Pfx) -> bool {
+        self.min() <= o.max() && o.min() <= self.max()
+    }
+}
+
+#[derive(Clone, Debug, PartialEq, Eq, Serialize, Deserialize)]
+pub enum Res {
+    Missing,
+    Inherit,
+    Blocks(Vec<Pfx>),
+}
+
+#[derive(Clone, Debug, PartialEq, Eq, Serialize, Deserialize)]
+pub enum AsRes {
+    Missing,
+    Inherit,
+    Blocks(Vec<(u32, u32)>),
+}
+
+#[derive(Clone, Debug, Serialize, Deserialize)]
+pub struct EeSpec {
+    /// pool key of the EE certificate
+    pub key: u8,
+    /// pool key of the issuer (trust anchor)
+    pub issuer: u8,
+    pub v4: Res,
+    pub v6: Res,
+    pub asn: AsRes,
+    /// Overclaim::Trim instead of Refuse
+    pub trim: bool,
+    /// notBefore / notAfter, Unix seconds
+    pub nb: i64,
+    pub na: i64,
+}
+
+#[derive(Clone, Copy, Debug, PartialEq, Eq)]
+pub enum EeFault {
+    None,
+    /// signed by a key that is not the issuer's
+    WrongSigner,
+    /// AKI names another key
+    Aki,
+}
+
+fn drop_overlaps(v: &mut Vec<Pfx>) {
+    let mut out: Vec<Pfx> = Vec::new();
+    for p in v.iter() {
+        if !out.iter().any(|o| o.overlaps(*p)) {
+            out.push(*p);
+        }
+    }
+    *v = out;
+}
+
+impl EeSpec {
+    /// Brings a generated spec into the documented domain: pairwise disjoint
+    /// blocks, no empty block lists, at least one resource extension, distinct
+    /// EE and issuer keys, notBefore < notAfter.
+    pub fn normalize(mut self) -> Self {
+        for (r, fam_max) in [(&mut self.v4, 32u8), (&mut self.v6, 128u8)] {
+            if let Res::Blocks(b) = r {
+                for p in b.iter_mut() {
+                    *p = Pfx::new(p.bits.0, p.len.min(fam_max));
+                }
+                drop_overlaps(b);
+                if b.is_empty() {
+                    *r = Res::Missing;
+                }
+            }
+        }
+        if let AsRes::Blocks(b) = &mut self.asn {
+            let mut out: Vec<(u32, u32)> = Vec::new();
+            for &(lo, hi) in b.iter() {
+                let (lo, hi) = (lo.min(hi), lo.max(hi));
+                if !out.iter().any(|&(a, z)| a <= hi && lo <= z) {
+                    out.push((lo, hi));
+                }
+            }
+            *b = out;
+            if b.is_empty() {
+                self.asn = AsRes::Missing;
+            }
+        }
+        if self.v4 == Res::Missing && self.v6 == Res::Missing && self.asn == AsRes::Missing {
+            self.asn = AsRes::Inherit;
+        }
+        self.key %= POOL_SIZE as u8;
+        self.issuer %= POOL_SIZE as u8;
+        if self.key == self.issuer {
+            self.key = (self.key + 1) % POOL_SIZE as u8;
+        }
+        if self.na <= self.nb {
+            self.na = self.nb + 2;
+        }
+        self
+    }
+}
+
+/// Builds the EE certificate with the library's `TbsCert` and the pool signer.
+pub fn build_ee(spec: &EeSpec, fault: EeFault) -> Cert {
+    let signer = PoolSigner::new();
+    let issuer = spec.issuer as usize % POOL_SIZE;
+    let ipk = signer.info(issuer);
+    let epk = signer.info(spec.key as usize);
+    let u = rsync_uri();
+    let mut ee = TbsCert::new(
+        2u64.into(),
+        ipk.to_subject_name(),
+        Validity::new(lib_time(spec.nb), lib_time(spec.na)),
+        None,
+        epk,
+        KeyUsage::Ee,
+        if spec.trim { Overclaim::Trim } else { Overclaim::Refuse },
+    );
+    let aki = if fault == EeFault::Aki { signer.info(issuer + 1).key_identifier() } else { ipk.key_identifier() };
+    ee.set_authority_key_identifier(Some(aki));
+    ee.set_crl_uri(Some(u.clone()));
+    ee.set_ca_issuer(Some(u.clone()));
+    ee.set_signed_object(Some(u));
+    match &spec.v4 {
+        Res::Missing => {}
+        Res::Inherit => ee.set_v4_resources_inherit(),
+        Res::Blocks(b) => ee.build_v4_resource_blocks(|bb| {
+            for p in b {
+                bb.push(Prefix::new(p.bits.0, p.len))
+            }
+        }),
+    }
+    match &spec.v6 {
+        Res::Missing => {}
+        Res::Inherit => ee.set_v6_resources_inherit(),
+        Res::Blocks(b) => ee.build_v6_resource_blocks(|bb| {
+            for p in b {
+                bb.push(Prefix::new(p.bits.0, p.len))
+            }
+        }),
+    }
+    match &spec.asn {
+        AsRes::Missing => {}
+        AsRes::Inherit => ee.set_as_resources_inherit(),
+        AsRes::Blocks(b) => ee.build_as_resource_blocks(|bb| {
+            for &(lo, hi) in b {
+                bb.push((Asn::from_u32(lo), Asn::from_u32(hi)))
+            }
+        }),
+    }
+    let sign_key = if fault == EeFault::WrongSigner { issuer + 1 } else { issuer };
+    ee.into_cert(&signer, &signer.key(sign_key)).expect("sign EE")
+}
+
+//------------ resource model ---------------------------------------------------
+
+fn merge(mut r: Vec<(u128, u128)>) -> Vec<(u128, u128)> {
+    r.sort();
+    let mut out: Vec<(u128, u128)> = Vec::new();
+    for (lo, hi) in r {
+        if let Some(last) = out.last_mut() {
+            if lo <= last.1 || (last.1 != u128::MAX && lo == last.1 + 1) {
+                if hi > last.1 {
+                    last.1 = hi;
+                }
+                continue;
+            }
+        }
+        out.push((lo, hi));
+    }
+    out
+}
+
+fn within(r: (u128, u128), set: &[(u128, u128)]) -> bool {
+    set.iter().any(|&(lo, hi)| lo <= r.0 && r.1 <= hi)
+}
+
+fn intersect(a: &[(u128, u128)], b: &[(u128, u128)]) -> Vec<(u128, u128)> {
+    let mut out = Vec::new();
+    for &(al, ah) in a {
+        for &(bl, bh) in b {
+            let lo = al.max(bl);
+            let hi = ah.min(bh);
+            if lo <= hi {
+                out.push((lo, hi));
+            }
+        }
+    }
+    merge(out)
+}
+
+pub fn ta_v4() -> Vec<(u128, u128)> {
+    merge(TA_V4.iter().map(|&(a, l)| { let p = Pfx::new(v4_bits(a), l); (p.min(), p.max()) }).collect())
+}
+pub fn ta_v6() -> Vec<(u128, u128)> {
+    merge(TA_V6.iter().map(|&(a, l)| { let p = Pfx::new(a, l); (p.min(), p.max()) }).collect())
+}
+pub fn ta_as() -> Vec<(u128, u128)> {
+    merge(TA_AS.iter().map(|&(lo, hi)| (lo as u128, hi as u128)).collect())
+}
+
+/// Validated resources of an EE certificate under the issuer (C01 model).
+#[derive(Clone, Debug)]
+pub struct Validated {
+    pub v4: Vec<(u128, u128)>,
+    pub v6: Vec<(u128, u128)>,
+    pub asn: Vec<(u128, u128)>,
+}
+
+fn validate_family(
+    claimed: Option<Vec<(u128, u128)>>, // None = inherit
+    missing: bool,
+    issuer: Vec<(u128, u128)>,
+    trim: bool,
+) -> Option<Vec<(u128, u128)>> {
+    if missing {
+        return Some(Vec::new());
+    }
+    match claimed {
+        None => Some(issuer),
+        Some(c) => {
+            let c = merge(c);
+            if trim {
+                Some(intersect(&c, &issuer))
+            } else if c.iter().all(|&r| within(r, &issuer)) {
+                Some(c)
+            } else {
+                None
+            }
+        }
+    }
+}
+
+/// `None`: the certificate overclaims under the Refuse policy.
+pub fn validated(ee: &EeSpec) -> Option<Validated> {
+    let fam = |r: &Res, issuer: Vec<(u128, u128)>| match r {
+        Res::Missing => validate_family(None, true, issuer, ee.trim),
+        Res::Inherit => validate_family(None, false, issuer, ee.trim),
+        Res::Blocks(b) => validate_family(Some(b.iter().map(|p| (p.min(), p.max())).collect()), false, issuer, ee.trim),
+    };
+    let v4 = fam(&ee.v4, ta_v4())?;
+    let v6 = fam(&ee.v6, ta_v6())?;
+    let asn = match &ee.asn {
+        AsRes::Missing => validate_family(None, true, ta_as(), ee.trim),
+        AsRes::Inherit => validate_family(None, false, ta_as(), ee.trim),
+        AsRes::Blocks(b) => {
+            validate_family(Some(b.iter().map(|&(lo, hi)| (lo as u128, hi as u128)).collect()), false, ta_as(), ee.trim)
+        }
+    }?;
+    Some(Validated { v4, v6, asn })
+}
+
+//------------ CMS options, content types, contents ------------------------------
+
+#[derive(Clone, Copy, Debug, Serialize, Deserialize)]
+pub struct Opts {
+    pub sig_sha256rsa: bool,
+    pub sig_null: bool,
+    pub dig_set_null: bool,
+    pub dig_si_null: bool,
+    /// signing time (UTCTime through 2049, GeneralizedTime from 2050 on)
+    pub st: i64,
+}
+
+impl Opts {
+    pub fn cms(self) -> CmsOpts {
+        CmsOpts {
+            sig_alg_sha256_with_rsa: self.sig_sha256rsa,
+            sig_alg_null: self.sig_null,
+            digest_set_null: self.dig_set_null,
+            digest_si_null: self.dig_si_null,
+        }
+    }
+    pub fn st(self) -> TimeEnc {
+        TimeEnc::new(self.st, false)
+    }
+}
+
+pub fn opts_strategy() -> BoxedStrategy<Opts> {
+    (
+        any::<bool>(),
+        prop::bool::weighted(0.7),
+        any::<bool>(),
+        any::<bool>(),
+        prop_oneof![
+            3 => ymd(2015, 1, 1)..ymd(2049, 12, 31),
+            1 => Just(ymd(2050, 1, 1) - 1),
+            1 => Just(ymd(2050, 1, 1)),
+            2 => ymd(2050, 1, 1)..ymd(2120, 1, 1),
+        ],
+    )
+        .prop_map(|(a, b, c, d, st)| Opts { sig_sha256rsa: a, sig_null: b, dig_set_null: c, dig_si_null: d, st })
+        .boxed()
+}
+
+#[derive(Clone, Debug, PartialEq, Eq, Serialize, Deserialize)]
+pub enum Ct {
+    Roa,
+    Mft,
+    Aspa,
+    Gbr,
+    /// 1.2.<arcs> (truncated to at most 40 content octets)
+    Other(Vec<u32>),
+}
+
+impl Ct {
+    pub fn bytes(&self) -> Vec<u8> {
+        match self {
+            Ct::Roa => oids::CT_ROA.to_vec(),
+            Ct::Mft => oids::CT_MFT.to_vec(),
+            Ct::Aspa => oids::CT_ASPA.to_vec(),
+            Ct::Gbr => oids::CT_GBR.to_vec(),
+            Ct::Other(arcs) => {
+                let mut a: Vec<u64> = vec![1, 2];
+                a.extend(arcs.iter().map(|&x| x as u64));
+                loop {
+                    let c = der::oid_content(&a);
+                    if c.len() <= 40 || a.len() <= 2 {
+                        return c;
+                    }
+                    a.pop();
+                }
+            }
+        }
+    }
+}
+
+pub fn ct_strategy() -> BoxedStrategy<Ct> {
+    prop_oneof![
+        3 => prop::sample::select(vec![Ct::Roa, Ct::Mft, Ct::Aspa, Ct::Gbr]),
+        // one-octet arcs: content length = count + 1, dense around the
+        // 127/128-byte boundary of the attribute set (content 30..34 octets)
+        10 => (24usize..=39, prop::collection::vec(0u32..128, 39)).prop_map(|(n, mut v)| { v.truncate(n); Ct::Other(v) }),
+        3 => prop::collection::vec(0u32..128, 0..24).prop_map(Ct::Other),
+        4 => prop::collection::vec(dense_u32(), 0..10).prop_map(Ct::Other),
+    ]
+    .boxed()
+}
+
+#[derive(Clone, Debug, Serialize, Deserialize)]
+pub struct Content {
+    pub head: Vec<u8>,
+    /// number of additional octets (a fixed pattern derived from the index)
+    pub pad: u16,
+}
+
+impl Content {
+    pub fn bytes(&self) -> Vec<u8> {
+        let mut v = self.head.clone();
+        v.extend((0..self.pad as usize).map(|i| (i as u8).wrapping_mul(31).wrapping_add(7)));
+        v
+    }
+}
+
+pub fn content_strategy() -> BoxedStrategy<Content> {
+    (
+        prop::collection::vec(any::<u8>(), 0..40),
+        prop_oneof![6 => Just(0u16), 2 => 0u16..300, 1 => 300u16..4096],
+    )
+        .prop_map(|(head, pad)| Content { head, pad })
+        .boxed()
+}
+
+//------------ generators for resources -------------------------------------------
+
+const V4_IN: &[(u32, u8)] = &[
+    (0x0A00_0000, 8), (0x0A00_0000, 9), (0x0A80_0000, 9), (0x0A01_0000, 16), (0x0A01_0200, 24),
+    (0x0AFF_FFFF, 32), (0xC0A8_0000, 16), (0xC0A8_8000, 17), (0xC0A8_0400, 22), (0x0A00_0000, 32),
+];
+const V4_OUT: &[(u32, u8)] = &[
+    (0x0B00_0000, 8), (0x0800_0000, 6), (0, 0), (0xC0A8_0000, 15), (0xAC10_0000, 12), (0x09FF_FFFF, 32),
+    (0xC100_0000, 8), (0xC0A9_0000, 16),
+];
+const V6_IN: &[(u128, u8)] = &[
+    (0x2001_0db8_0000_0000_0000_0000_0000_0000, 32),
+    (0x2001_0db8_0000_0000_0000_0000_0000_0000, 33),
+    (0x2001_0db8_8000_0000_0000_0000_0000_0000, 33),
+    (0x2001_0db8_0001_0000_0000_0000_0000_0000, 48),
+    (0x2001_0db8_0000_0000_0000_0000_0000_0001, 128),
+    (0x2001_0db8_ffff_ffff_ffff_ffff_ffff_ffff, 128),
+];
+const V6_OUT: &[(u128, u8)] = &[
+    (0x2001_0db8_0000_0000_0000_0000_0000_0000, 31),
+    (0x2001_0db9_0000_0000_0000_0000_0000_0000, 32),
+    (0, 0),
+    (0x2001_0db7_ffff_0000_0000_0000_0000_0000, 48),
+    (0xfe80_0000_0000_0000_0000_0000_0000_0000, 10),
+];
+const AS_IN: &[(u32, u32)] = &[(64496, 64511), (64496, 64496), (64500, 64505), (65000, 65010), (65005, 65005), (64511, 64511)];
+const AS_OUT: &[(u32, u32)] = &[(64495, 64496), (64512, 64512), (0, 0), (0, u32::MAX), (65011, 65011), (u32::MAX, u32::MAX), (64511, 65000)];
+
+fn v4_table(inside: bool) -> Vec<Pfx> {
+    (if inside { V4_IN } else { V4_OUT }).iter().map(|&(a, l)| Pfx::new(v4_bits(a), l)).collect()
+}
+fn v6_table(inside: bool) -> Vec<Pfx> {
+    (if inside { V6_IN } else { V6_OUT }).iter().map(|&(a, l)| Pfx::new(a, l)).collect()
+}
+
+fn pfx_strategy(v6: bool) -> BoxedStrategy<Pfx> {
+    let (i, o) = if v6 { (v6_table(true), v6_table(false)) } else { (v4_table(true), v4_table(false)) };
+    prop_oneof![5 => prop::sample::select(i), 1 => prop::sample::select(o)].boxed()
+}
+
+fn res_strategy(v6: bool) -> BoxedStrategy<Res> {
+    prop_oneof![
+        3 => Just(Res::Missing),
+        2 => Just(Res::Inherit),
+        6 => prop::collection::vec(pfx_strategy(v6), 1..=3).prop_map(Res::Blocks),
+    ]
+    .boxed()
+}
+
+fn asres_strategy() -> BoxedStrategy<AsRes> {
+    let blk = prop_oneof![5 => prop::sample::select(AS_IN.to_vec()), 1 => prop::sample::select(AS_OUT.to_vec())];
+    prop_oneof![
+        3 => Just(AsRes::Missing),
+        2 => Just(AsRes::Inherit),
+        6 => prop::collection::vec(blk, 1..=3).prop_map(AsRes::Blocks),
+    ]
+    .boxed()
+}
+
+/// EE window used for everything that goes through the wall clock.
+pub fn wide_window() -> (i64, i64) {
+    (ymd(2020, 1, 1), ymd(2045, 1, 1))
+}
+
+fn window_strategy() -> BoxedStrategy<(i64, i64)> {
+    prop_oneof![
+        2 => (ymd(2024, 1, 1)..ymd(2030, 1, 1), 2i64..400 * 86_400).prop_map(|(nb, d)| (nb, nb + d)),
+        // around the UTCTime / GeneralizedTime switch
+        1 => (-3i64..3, 2i64..86_400).prop_map(|(o, d)| (ymd(2050, 1, 1) + o - d, ymd(2050, 1, 1) + o)),
+        1 => (-3i64..3, 2i64..86_400).prop_map(|(o, d)| (ymd(2050, 1, 1) + o, ymd(2050, 1, 1) + o + d)),
+    ]
+    .boxed()
+}
+
+fn ee_strategy(wide: bool) -> BoxedStrategy<EeSpec> {
+    let win = if wide {
+        (0i64..86_400, 0i64..86_400).prop_map(|(a, b)| { let (nb, na) = wide_window(); (nb + a, na + b) }).boxed()
+    } else {
+        window_strategy()
+    };
+    (0u8..8, 0u8..8, res_strategy(false), res_strategy(true), asres_strategy(), prop::bool::weighted(0.25), win)
+        .prop_map(|(key, issuer, v4, v6, asn, trim, (nb, na))| EeSpec { key, issuer, v4, v6, asn, trim, nb, na }.normalize())
+        .boxed()
+}
+
+//------------ evaluation time -------------------------------------------------------
+
+#[derive(Clone, Copy, Debug, PartialEq, Eq, Serialize, Deserialize)]
+pub enum Eval {
+    Mid,
+    NbMinus1,
+    Nb,
+    NbPlus1,
+    NaMinus1,
+    Na,
+    NaPlus1,
+    FarBefore,
+    FarAfter,
+}
+
+impl Eval {
+    pub fn time(self, nb: i64, na: i64) -> i64 {
+        match self {
+            Eval::Mid => nb + (na - nb) / 2,
+            Eval::NbMinus1 => nb - 1,
+            Eval::Nb => nb,
+            Eval::NbPlus1 => nb + 1,
+            Eval::NaMinus1 => na - 1,
+            Eval::Na => na,
+            Eval::NaPlus1 => na + 1,
+            Eval::FarBefore => nb - 10 * 365 * 86_400,
+            Eval::FarAfter => na + 10 * 365 * 86_400,
+        }
+    }
+}
+
+pub fn eval_strategy() -> BoxedStrategy<Eval> {
+    prop_oneof![
+        6 => Just(Eval::Mid),
+        1 => Just(Eval::NbMinus1), 1 => Just(Eval::Nb), 1 => Just(Eval::NbPlus1),
+        1 => Just(Eval::NaMinus1), 1 => Just(Eval::Na), 1 => Just(Eval::NaPlus1),
+        1 => Just(Eval::FarBefore), 1 => Just(Eval::FarAfter),
+    ]
+    .boxed()
+}
+
+//------------ tampering ---------------------------------------------------------------
+
+#[derive(Clone, Copy, Debug, PartialEq, Eq, Serialize, Deserialize)]
+pub struct Flip {
+    pub pos: u16,
+    pub bit: u8,
+}
+
+#[derive(Clone, Copy, Debug, PartialEq, Eq, Serialize, Deserialize)]
+pub enum Tamper {
+    None,
+    /// message-digest attribute of other content, attributes re-signed
+    DigestAttr,
+    /// content replaced after signing
+    ContentAfter,
+    /// signature made over attributes with another signing time
+    SigOtherBytes,
+    /// signature made with a key that is not the EE certificate's
+    WrongKey,
+    /// sid names another key
+    Sid,
+    SigFlip(Flip),
+    AttrsFlip(Flip),
+    ContentFlip(Flip),
+    /// bit flip inside the TBS bytes of the embedded EE certificate
+    CertTbsFlip(Flip),
+    /// EE certificate signed by a key that is not the issuer's
+    EeWrongSigner,
+    /// EE certificate's AKI names another key
+    EeAki,
+    /// validated under the trust anchor of another key
+    OtherIssuer,
+}
+
+impl Tamper {
+    pub fn label(self) -> &'static str {
+        match self {
+            Tamper::None => "tamper:none",
+            Tamper::DigestAttr => "tamper:digest-attr",
+            Tamper::ContentAfter => "tamper:content-after",
+            Tamper::SigOtherBytes => "tamper:sig-other-bytes",
+            Tamper::WrongKey => "tamper:wrong-key",
+            Tamper::Sid => "tamper:sid",
+            Tamper::SigFlip(_) => "tamper:sig-flip",
+            Tamper::AttrsFlip(_) => "tamper:attrs-flip",
+            Tamper::ContentFlip(_) => "tamper:content-flip",
+            Tamper::CertTbsFlip(_) => "tamper:cert-tbs-flip",
+            Tamper::EeWrongSigner => "tamper:ee-wrong-signer",
+            Tamper::EeAki => "tamper:ee-aki",
+            Tamper::OtherIssuer => "tamper:other-issuer",
+        }
+    }
+    fn ee_fault(self) -> EeFault {
+        match self {
+            Tamper::EeWrongSigner => EeFault::WrongSigner,
+            Tamper::EeAki => EeFault::Aki,
+            _ => EeFault::None,
+        }
+    }
+    /// Tampers that the CMS layer alone (without the chain) must notice.
+    fn cms_level(self) -> bool {
+        matches!(
+            self,
+            Tamper::DigestAttr | Tamper::ContentAfter | Tamper::SigOtherBytes | Tamper::WrongKey | Tamper::Sid
+                | Tamper::SigFlip(_) | Tamper::AttrsFlip(_) | Tamper::ContentFlip(_)
+        )
+    }
+    /// Tampers that can be applied to the bytes of a finished object.
+    fn post_hoc(self) -> bool {
+        matches!(
+            self,
+            Tamper::None | Tamper::SigFlip(_) | Tamper::AttrsFlip(_) | Tamper::ContentFlip(_) | Tamper::CertTbsFlip(_)
+                | Tamper::OtherIssuer
+        )
+    }
+}
+
+pub fn flip_strategy() -> BoxedStrategy<Flip> {
+    (any::<u16>(), 0u8..8).prop_map(|(pos, bit)| Flip { pos, bit }).boxed()
+}
+
+/// All tamper kinds; `none_weight` of 24 parts are untampered.
+pub fn tamper_strategy(none_weight: u32) -> BoxedStrategy<Tamper> {
+    prop_oneof![
+        none_weight => Just(Tamper::None),
+        1 => Just(Tamper::DigestAttr),
+        1 => Just(Tamper::ContentAfter),
+        1 => Just(Tamper::SigOtherBytes),
+        1 => Just(Tamper::WrongKey),
+        1 => Just(Tamper::Sid),
+        1 => flip_strategy().prop_map(Tamper::SigFlip),
+        1 => flip_strategy().prop_map(Tamper::AttrsFlip),
+        1 => flip_strategy().prop_map(Tamper::ContentFlip),
+        1 => flip_strategy().prop_map(Tamper::CertTbsFlip),
+        1 => Just(Tamper::EeWrongSigner),
+        1 => Just(Tamper::EeAki),
+        1 => Just(Tamper::OtherIssuer),
+    ]
+    .boxed()
+}
+
+fn post_hoc_tamper_strategy(none_weight: u32) -> BoxedStrategy<Tamper> {
+    prop_oneof![
+        none_weight => Just(Tamper::None),
+        1 => flip_strategy().prop_map(Tamper::SigFlip),
+        1 => flip_strategy().prop_map(Tamper::AttrsFlip),
+        1 => flip_strategy().prop_map(Tamper::ContentFlip),
+        1 => flip_strategy().prop_map(Tamper::CertTbsFlip),
+        1 => Just(Tamper::OtherIssuer),
+    ]
+    .boxed()
+}
+
+pub fn flip_in(bytes: &mut [u8], region: (usize, usize), f: Flip) -> Result<(), Fail> {
+    let (lo, hi) = region;
+    ensure!(lo < hi && hi <= bytes.len(), "harness: empty tamper region {:?}", region);
+    let i = lo + pick_idx(f.pos, hi - lo);
+    bytes[i] ^= 1 << (f.bit & 7);
+    Ok(())
+}
+
+/// Applies a byte-level tamper to a finished object.
+pub fn tamper_bytes(bytes: &mut Vec<u8>, t: Tamper) -> Result<(), Fail> {
+    let region = |b: &[u8]| -> Result<der::CmsView, Fail> {
+        der::cms_parse(b).map_err(|e| Fail::new(format!("harness parser rejects an untampered object: {}", e)))
+    };
+    match t {
+        Tamper::SigFlip(f) => {
+            let v = region(bytes)?;
+            flip_in(bytes, v.span_signature, f)
+        }
+        Tamper::AttrsFlip(f) => {
+            let v = region(bytes)?;
+            flip_in(bytes, v.span_attrs, f)
+        }
+        Tamper::ContentFlip(f) => {
+            let v = region(bytes)?;
+            // an empty eContent has no byte to flip: flip a signed attribute byte instead
+            let r = if v.span_content.0 < v.span_content.1 { v.span_content } else { v.span_attrs };
+            flip_in(bytes, r, f)
+        }
+        Tamper::CertTbsFlip(f) => {
+            let v = region(bytes)?;
+            let r = v.span_cert_tbs.ok_or_else(|| Fail::new("harness: no certificate in object"))?;
+            flip_in(bytes, r, f)
+        }
+        _ => Ok(()),
+    }
+}
+
+/// Assembles an object with the independent writer, applying `tamper`.
+/// Returns the encoded object and the size of the signed-attribute content.
+pub fn assemble(
+    ct: &[u8],
+    content: &[u8],
+    ee: &EeSpec,
+    opts: Opts,
+    tamper: Tamper,
+) -> Result<(Vec<u8>, usize), Fail> {
+    let mut content = content.to_vec();
+    if content.is_empty() && matches!(tamper, Tamper::ContentFlip(_)) {
+        content.push(0x5A);
+    }
+    let cert = build_ee(ee, tamper.ee_fault());
+    let cert_der = cert.to_captured().into_bytes().to_vec();
+    let key = ee.key as usize % POOL_SIZE;
+    let mut cms = Cms::standard(ct, &content, cert_der, vec![], key, opts.st(), &[], opts.cms());
+    let attrs_len = der::attrs_content_len(&cms.attrs);
+    match tamper {
+        Tamper::DigestAttr => {
+            let mut other = content.clone();
+            other.push(1);
+            cms.attrs[1] = der::attr_message_digest(&keys::sha256(&other));
+            cms.signature = keys::raw_sign(key, &der::attrs_to_be_signed(&cms.attrs));
+        }
+        Tamper::ContentAfter => {
+            if let Some(b) = cms.content.first_mut() {
+                *b ^= 0x01;
+            } else {
+                cms.content.push(0);
+            }
+        }
+        Tamper::SigOtherBytes => {
+            let mut a = cms.attrs.clone();
+            a[2] = der::attr_signing_time(TimeEnc::new(opts.st + 1, false));
+            cms.signature = keys::raw_sign(key, &der::attrs_to_be_signed(&a));
+        }
+        Tamper::WrongKey => {
+            cms.signature = keys::raw_sign(key + 1, &der::attrs_to_be_signed(&cms.attrs));
+        }
+        Tamper::Sid => {
+            cms.sid = keys::key_id_of_spki(&keys::pool().spki[(key + 1) % POOL_SIZE]).unwrap().to_vec();
+        }
+        _ => {}
+    }
+    let mut bytes = cms.encode();
+    tamper_bytes(&mut bytes, tamper)?;
+    Ok((bytes, attrs_len))
+}
+
+/// Self-consistency of the harness: its own verifier accepts what its writer
+/// produced and notices every CMS-level tamper.
+fn check_own_verifier(bytes: &[u8], tamper: Tamper) -> CheckResult {
+    match der::cms_parse(bytes) {
+        Ok(v) => {
+            let r = v.verify();
+            if tamper == Tamper::None || !tamper.cms_level() && !matches!(tamper, Tamper::CertTbsFlip(_)) {
+                ensure!(r.is_ok(), "harness verifier rejects an object of the harness writer: {:?}", r);
+            } else if tamper.cms_level() {
+                ensure!(r.is_err(), "harness verifier does not notice {}", tamper.label());
+            }
+        }
+        Err(e) => {
+            ensure!(
+                matches!(tamper, Tamper::AttrsFlip(_) | Tamper::CertTbsFlip(_)),
+                "harness parser rejects an object of the harness writer: {}", e
+            );
+        }
+    }
+    Ok(())
+}
+
+fn crl_callback(ok: bool) -> impl FnOnce(&Cert) -> Result<(), ValidationError> {
+    move |_| if ok { Ok(()) } else { Err(VerificationError::new("certificate revoked (harness callback)").into()) }
+}
+
+fn issuer_for(ee: &EeSpec, t: Tamper) -> &'static ResourceCert {
+    let i = ee.issuer as usize;
+    ta(if t == Tamper::OtherIssuer { i + 1 } else { i })
+}
+
+/// Is the EE window wide enough around the wall clock for `process()`?
+fn window_is_wide(ee: &EeSpec) -> bool {
+    ee.nb <= ymd(2021, 1, 1) && ee.na >= ymd(2044, 1, 1)
+}
+
+fn compare(
+    what: &str,
+    expect: bool,
+    got: &Result<(), String>,
+    attrs_len: usize,
+    detail: &dyn Fn() -> String,
+) -> CheckResult {
+    if expect {
+        if let Err(e) = got {
+            let msg = format!(
+                "{}: object meeting all conditions of the property was rejected ({}); signed attributes {} bytes; {}",
+                what, e, attrs_len, detail()
+            );
+            if attrs_len >= 128 {
+                return Err(Fail::sig(SIG_F12, msg));
+            }
+            return Err(Fail::new(msg));
+        }
+    } else {
+        ensure!(got.is_err(), "{}: object violating a condition was accepted; {}", what, detail());
+    }
+    Ok(())
+}
+
+fn label_common(obs: &mut Obs, tamper: Tamper, attrs_len: usize, expect: bool, strict: bool) {
+    obs.label(tamper.label());
+    obs.label_if(attrs_len >= 128, "attrs>=128");
+    obs.label_if((126..=129).contains(&attrs_len), "attrs-126..129");
+    obs.label(if expect { "expect-accept" } else { "expect-reject" });
+    obs.label(if strict { "strict" } else { "relaxed" });
+}
+
+//============ sub-check: generic ==============================================
+
+#[derive(Clone, Debug, Serialize, Deserialize)]
+pub struct Generic {
+    pub ct: Ct,
+    pub content: Content,
+    pub opts: Opts,
+    pub ee: EeSpec,
+    pub strict: bool,
+    pub eval: Eval,
+    /// Some(callback verdict): go through `SignedObject::process` (wall clock)
+    pub process: Option<bool>,
+    pub tamper: Tamper,
+}
+
+fn generic_strategy(_: Tier) -> BoxedStrategy<Generic> {
+    let direct = (ee_strategy(false), eval_strategy(), Just(None::<bool>)).boxed();
+    let via_process = (ee_strategy(true), Just(Eval::Mid), prop::bool::weighted(0.7).prop_map(Some)).boxed();
+    (
+        ct_strategy(),
+        content_strategy(),
+        opts_strategy(),
+        prop_oneof![3 => direct, 1 => via_process],
+        any::<bool>(),
+        tamper_strategy(8),
+    )
+        .prop_map(|(ct, content, opts, (ee, eval, process), strict, tamper)| Generic {
+            ct, content, opts, ee, strict, eval, process, tamper,
+        })
+        .boxed()
+}
+
+fn run_generic(c: &Generic, obs: &mut Obs) -> CheckResult {
+    let ct = c.ct.bytes();
+    let content = c.content.bytes();
+    let (bytes, attrs_len) = assemble(&ct, &content, &c.ee, c.opts, c.tamper)?;
+    check_own_verifier(&bytes, c.tamper)?;
+    let issuer = issuer_for(&c.ee, c.tamper);
+    let res_ok = validated(&c.ee).is_some();
+    let via_process = c.process.is_some() && window_is_wide(&c.ee);
+    let t = c.eval.time(c.ee.nb, c.ee.na);
+    let in_window = via_process || (c.ee.nb <= t && t <= c.ee.na);
+    let crl_ok = if via_process { c.process.unwrap_or(true) } else { true };
+    let expect = c.tamper == Tamper::None && in_window && res_ok && crl_ok;
+
+    let got: Result<(), String> = match SignedObject::decode(bytes.as_slice(), c.strict) {
+        Err(e) => Err(format!("decode: {}", e)),
+        Ok(obj) => {
+            if obj.content().to_bytes().as_ref() != content.as_slice() && c.tamper == Tamper::None {
+                return Err(Fail::new("decoded content differs from the encoded content"));
+            }
+            if via_process {
+                obj.process(issuer, c.strict, crl_callback(crl_ok)).map(|_| ()).map_err(|e| e.to_string())
+            } else {
+                obj.validate_at(issuer, c.strict, lib_time(t)).map(|_| ()).map_err(|e| e.to_string())
+            }
+        }
+    };
+    label_common(obs, c.tamper, attrs_len, expect, c.strict);
+    obs.label(match c.ct { Ct::Other(_) => "ct:arbitrary", _ => "ct:registered" });
+    obs.label_if(!in_window, "out-of-window");
+    obs.label_if(!res_ok, "ee-overclaim");
+    obs.label_if(via_process, "via-process");
+    obs.label_if(via_process && !crl_ok, "crl-callback-err");
+    obs.label_if(c.opts.st().is_generalized(), "signing-time:generalized");
+    obs.label_if(c.opts.sig_sha256rsa, "sigalg:sha256WithRSA");
+    // DER SET OF order of the three attributes (depends on their sizes)
+    let ct_attr = 17 + ct.len();
+    let st_attr = if c.opts.st().is_generalized() { 30 } else { 28 };
+    obs.label(if ct_attr > 47 {
+        "order:st,md,ct"
+    } else if ct_attr > st_attr {
+        "order:st,ct,md"
+    } else {
+        "order:ct,st,md"
+    });
+    obs.nontrivial_if(attrs_len >= 128 || c.tamper != Tamper::None);
+    compare("generic", expect, &got, attrs_len, &|| {
+        format!("tamper={:?} eval={:?} in_window={} res_ok={} crl_ok={} strict={}", c.tamper, c.eval, in_window, res_ok, crl_ok, c.strict)
+    })
+}
+
+//============ sub-check: roa ====================================================
+
+#[derive(Clone, Copy, Debug, Serialize, Deserialize)]
+pub struct RoaP {
+    pub p: Pfx,
+    pub max_len: Option<u8>,
+}
+
+#[derive(Clone, Debug, Serialize, Deserialize)]
+pub struct RoaCase {
+    /// built with `RoaBuilder` (EE resources = the prefixes) instead of der.rs
+    pub builder: bool,
+    pub as_id: u32,
+    pub v4: Vec<RoaP>,
+    pub v6: Vec<RoaP>,
+    pub ee: EeSpec,
+    pub opts: Opts,
+    pub strict: bool,
+    pub crl_ok: bool,
+    pub tamper: Tamper,
+}
+
+/// ROA prefix drawn relative to the EE's (or issuer's) blocks.
+fn derive_roa_prefix(src: &[Pfx], table: &[Pfx], fam_max: u8, raw: (u16, u8, u8, u128, Option<u8>)) -> RoaP {
+    let (idx, kind, extra, rnd, ml) = raw;
+    let base = if src.is_empty() || kind % 8 == 7 {
+        table[pick_idx(idx, table.len())]
+    } else {
+        src[pick_idx(idx, src.len())]
+    };
+    let p = match kind % 8 {
+        0 | 1 => base, // equal
+        2..=4 => {
+            // more specific
+            let nl = base.len.saturating_add(1 + extra % 8).min(fam_max);
+            let free = if base.len >= 128 { 0 } else { rnd & (u128::MAX >> base.len) };
+            Pfx::new(base.bits.0 | free, nl)
+        }
+        5 | 6 => Pfx::new(base.bits.0, base.len.saturating_sub(1 + extra % 3)), // wider
+        _ => base,
+    };
+    let max_len = ml.map(|d| p.len.saturating_add(d % 9).min(fam_max));
+    RoaP { p, max_len }
+}
+
+fn raw_pfx() -> impl Strategy<Value = (u16, u8, u8, u128, Option<u8>)> {
+    (any::<u16>(), any::<u8>(), any::<u8>(), any::<u128>(), prop::option::weighted(0.6, any::<u8>()))
+}
+
+fn roa_strategy(_: Tier) -> BoxedStrategy<RoaCase> {
+    (
+        prop::bool::weighted(0.35),
+        dense_u32(),
+        prop::collection::vec(raw_pfx(), 0..=4),
+        prop::collection::vec(raw_pfx(), 0..=3),
+        ee_strategy(true),
+        opts_strategy(),
+        any::<bool>(),
+        prop::bool::weighted(0.85),
+        tamper_strategy(40),
+    )
+        .prop_map(|(builder, as_id, r4, r6, mut ee, opts, strict, crl_ok, tamper)| {
+            // the EE of a ROA has no AS resources
+            ee.asn = AsRes::Missing;
+            let mut ee = ee.normalize();
+            if ee.asn != AsRes::Missing {
+                // all missing: give it IPv4 space instead of AS inherit
+                ee.asn = AsRes::Missing;
+                ee.v4 = Res::Inherit;
+            }
+            let src = |r: &Res, ta: &[Pfx]| match r {
+                Res::Blocks(b) => b.clone(),
+                Res::Inherit => ta.to_vec(),
+                Res::Missing => Vec::new(),
+            };
+            let s4 = src(&ee.v4, &v4_table(true)[..1]);
+            let s6 = src(&ee.v6, &v6_table(true)[..1]);
+            let mut t4 = v4_table(true);
+            t4.extend(v4_table(false));
+            let mut t6 = v6_table(true);
+            t6.extend(v6_table(false));
+            let mut v4: Vec<RoaP> = r4.into_iter().map(|r| derive_roa_prefix(&s4, &t4, 32, r)).collect();
+            let mut v6: Vec<RoaP> = r6.into_iter().map(|r| derive_roa_prefix(&s6, &t6, 128, r)).collect();
+            if v4.is_empty() && v6.is_empty() {
+                v4.push(RoaP { p: t4[3], max_len: None });
+            }
+            let mut tamper = tamper;
+            if builder {
+                // RoaBuilder derives the EE resources from the prefixes: keep
+                // them pairwise disjoint (documented domain of the builder)
+                for v in [&mut v4, &mut v6] {
+                    let mut keep: Vec<RoaP> = Vec::new();
+                    for r in v.iter() {
+                        if !keep.iter().any(|k| k.p.overlaps(r.p)) {
+                            keep.push(*r);
+                        }
+                    }
+                    *v = keep;
+                }
+                if !tamper.post_hoc() {
+                    tamper = Tamper::None;
+                }
+            }
+            RoaCase { builder, as_id, v4, v6, ee, opts, strict, crl_ok, tamper }
+        })
+        .boxed()
+}
+
+fn sigobj_builder(ee: &EeSpec, st: i64) -> SignedObjectBuilder {
+    let u = rsync_uri();
+    let mut b = SignedObjectBuilder::new(
+        3u64.into(),
+        Validity::new(lib_time(ee.nb), lib_time(ee.na)),
+        u.clone(),
+        u.clone(),
+        u,
+    );
+    b.set_signing_time(lib_time(st));
+    b
+}
+
+/// Reverse differential: a library-built object must verify with the
+/// harness' own CMS verifier. Returns the signed-attribute size.
+fn verify_library_built(bytes: &[u8], issuer: usize) -> Result<usize, Fail> {
+    let view = der::cms_parse(bytes)
+        .map_err(|e| Fail::new(format!("library-built object not parseable by the harness DER parser: {}", e)))?;
+    let attrs_len = view.attrs_raw.len();
+    // the attributes must already be in DER SET OF order
+    let mut sorted = view.attrs.clone();
+    der::sort_set_of(&mut sorted);
+    ensure!(sorted == view.attrs, "library-built object: signed attributes are not in DER SET OF order");
+    if let Err(e) = view.verify() {
+        let msg = format!(
+            "library-built object does not verify with an independent verifier: {} (signed attributes {} bytes)",
+            e, attrs_len
+        );
+        if attrs_len >= 128 {
+            return Err(Fail::sig(SIG_F12, msg));
+        }
+        return Err(Fail::new(msg));
+    }
+    let cert = der::cert_parse(&view.certs[0]).map_err(Fail::new)?;
+    ensure!(cert.signed_by(issuer), "library-built object: EE certificate not signed by the issuer key");
+    Ok(attrs_len)
+}
+
+fn run_roa(c: &RoaCase, obs: &mut Obs) -> CheckResult {
+    let issuer_idx = c.ee.issuer as usize % POOL_SIZE;
+    let mut all: Vec<(bool, RoaP)> = c.v4.iter().map(|r| (false, *r)).collect();
+    all.extend(c.v6.iter().map(|r| (true, *r)));
+    let (bytes, attrs_len, val) = if c.builder {
+        let mut b = RoaBuilder::new(Asn::from_u32(c.as_id));
+        for r in &c.v4 {
+            b.push_v4(rpki::repository::roa::RoaIpAddress::new(Prefix::new(r.p.bits.0, r.p.len), r.max_len));
+        }
+        for r in &c.v6 {
+            b.push_v6(rpki::repository::roa::RoaIpAddress::new(Prefix::new(r.p.bits.0, r.p.len), r.max_len));
+        }
+        let signer = PoolSigner::with_first(c.ee.key as usize, 0);
+        let roa = b
+            .finalize(sigobj_builder(&c.ee, c.opts.st), &signer, &signer.key(issuer_idx))
+            .map_err(|e| Fail::new(format!("RoaBuilder::finalize failed: {}", e)))?;
+        let mut bytes = roa.to_captured().into_bytes().to_vec();
+        let attrs_len = verify_library_built(&bytes, issuer_idx)?;
+        tamper_bytes(&mut bytes, c.tamper)?;
+        // EE resources are exactly the prefixes, Refuse policy
+        let spec = EeSpec {
+            v4: if c.v4.is_empty() { Res::Missing } else { Res::Blocks(c.v4.iter().map(|r| r.p).collect()) },
+            v6: if c.v6.is_empty() { Res::Missing } else { Res::Blocks(c.v6.iter().map(|r| r.p).collect()) },
+            asn: AsRes::Missing,
+            trim: false,
+            ..c.ee.clone()
+        };
+        (bytes, attrs_len, validated(&spec))
+    } else {
+        let v4: Vec<RoaPfx> = c.v4.iter().map(|r| RoaPfx { bits: r.p.bits.0, len: r.p.len, max_len: r.max_len }).collect();
+        let v6: Vec<RoaPfx> = c.v6.iter().map(|r| RoaPfx { bits: r.p.bits.0, len: r.p.len, max_len: r.max_len }).collect();
+        let content = der::roa_content(c.as_id, &v4, &v6, false);
+        let (bytes, attrs_len) = assemble(oids::CT_ROA, &content, &c.ee, c.opts, c.tamper)?;
+        check_own_verifier(&bytes, c.tamper)?;
+        (bytes, attrs_len, validated(&c.ee))
+    };
+    let wide = window_is_wide(&c.ee);
+    ensure!(wide, "harness: ROA case without a wide validity window");
+    let covered = match &val {
+        None => false,
+        Some(v) => all.iter().all(|(v6, r)| within((r.p.min(), r.p.max()), if *v6 { &v.v6 } else { &v.v4 })),
+    };
+    let expect = c.tamper == Tamper::None && val.is_some() && covered && c.crl_ok;
+    let issuer = issuer_for(&c.ee, c.tamper);
+    let got: Result<(), String> = match Roa::decode(bytes.as_slice(), c.strict) {
+        Err(e) => Err(format!("decode: {}", e)),
+        Ok(roa) => match roa.process(issuer, c.strict, crl_callback(c.crl_ok)) {
+            Err(e) => Err(e.to_string()),
+            Ok((_, att)) => {
+                // the accepted attestation carries exactly the encoded prefixes
+                let got: Vec<(bool, u128, u8, u8)> = att
+                    .iter()
+                    .map(|a| (!a.is_v4(), a.prefix().addr().to_bits(), a.address_length(), a.max_length()))
+                    .collect();
+                let exp: Vec<(bool, u128, u8, u8)> =
+                    all.iter().map(|(v6, r)| (*v6, r.p.min(), r.p.len, r.max_len.unwrap_or(r.p.len))).collect();
+                ensure_eq!(got, exp, "prefixes of the accepted ROA");
+                ensure_eq!(att.as_id().into_u32(), c.as_id, "AS of the accepted ROA");
+                Ok(())
+            }
+        },
+    };
+    label_common(obs, c.tamper, attrs_len, expect, c.strict);
+    obs.label(if c.builder { "writer:RoaBuilder" } else { "writer:der.rs" });
+    obs.label_if(val.is_none(), "ee-overclaim");
+    obs.label_if(val.is_some() && !covered, "uncovered-prefix");
+    obs.label_if(val.is_some() && covered, "all-covered");
+    obs.label_if(!c.crl_ok, "crl-callback-err");
+    obs.label_if(c.ee.trim, "ee-trim");
+    obs.nontrivial_if(all.len() >= 2 || c.tamper != Tamper::None || attrs_len >= 128);
+    compare("roa", expect, &got, attrs_len, &|| {
+        format!("tamper={:?} ee_ok={} covered={} crl_ok={} validated={:?}", c.tamper, val.is_some(), covered, c.crl_ok, val)
+    })
+}
+
+//============ sub-check: aspa ===================================================
+
+#[derive(Clone, Debug, Serialize, Deserialize)]
+pub struct AspaCase {
+    pub builder: bool,
+    pub customer: u32,
+    pub providers: Vec<u32>,
+    pub ee: EeSpec,
+    pub opts: Opts,
+    pub strict: bool,
+    pub crl_ok: bool,
+    pub tamper: Tamper,
+}
+
+fn aspa_strategy(_: Tier) -> BoxedStrategy<AspaCase> {
+    let customer = prop_oneof![
+        6 => prop::sample::select(vec![64496u32, 64500, 64511, 65000, 65005, 65010]),
+        3 => prop::sample::select(vec![64495u32, 64512, 0, u32::MAX, 65011, 64999]),
+        1 => dense_u32(),
+    ];
+    // EE for an ASPA: mostly AS blocks only; sometimes with IP resources or inheritance
+    let ee = (ee_strategy(true), 0u8..10).prop_map(|(mut ee, k)| {
+        if k < 7 {
+            ee.v4 = Res::Missing;
+            ee.v6 = Res::Missing;
+        }
+        if k < 6 && !matches!(ee.asn, AsRes::Blocks(_)) {
+            ee.asn = AsRes::Blocks(vec![AS_IN[(k % 4) as usize]]);
+        }
+        ee.normalize()
+    });
+    (
+        prop::bool::weighted(0.3),
+        customer,
+        prop::collection::btree_set(prop_oneof![3 => 1u32..70000, 1 => dense_u32()], 1..6),
+        ee,
+        opts_strategy(),
+        any::<bool>(),
+        prop::bool::weighted(0.85),
+        tamper_strategy(40),
+    )
+        .prop_map(|(builder, customer, providers, ee, opts, strict, crl_ok, tamper)| {
+            let mut providers: Vec<u32> = providers.into_iter().filter(|&p| p != customer).collect();
+            if providers.is_empty() {
+                providers.push(customer.wrapping_add(1));
+            }
+            providers.sort_unstable();
+            let tamper = if builder && !tamper.post_hoc() { Tamper::None } else { tamper };
+            AspaCase { builder, customer, providers, ee, opts, strict, crl_ok, tamper }
+        })
+        .boxed()
+}
+
+fn run_aspa(c: &AspaCase, obs: &mut Obs) -> CheckResult {
+    let issuer_idx = c.ee.issuer as usize % POOL_SIZE;
+    let (bytes, attrs_len, spec) = if c.builder {
+        let b = AspaBuilder::new(Asn::from_u32(c.customer), c.providers.iter().map(|&p| Asn::from_u32(p)).collect::<Vec<_>>())
+            .map_err(|e| Fail::new(format!("AspaBuilder::new: {}", e)))?;
+        let signer = PoolSigner::with_first(c.ee.key as usize, 0);
+        let aspa = b
+            .finalize(sigobj_builder(&c.ee, c.opts.st), &signer, &signer.key(issuer_idx))
+            .map_err(|e| Fail::new(format!("AspaBuilder::finalize failed: {}", e)))?;
+        let mut bytes = aspa.to_captured().into_bytes().to_vec();
+        let attrs_len = verify_library_built(&bytes, issuer_idx)?;
+        tamper_bytes(&mut bytes, c.tamper)?;
+        let spec = EeSpec {
+            v4: Res::Missing,
+            v6: Res::Missing,
+            asn: AsRes::Blocks(vec![(c.customer, c.customer)]),
+            trim: false,
+            ..c.ee.clone()
+        };
+        (bytes, attrs_len, spec)
+    } else {
+        let content = der::aspa_content(c.customer, &c.providers);
+        let (bytes, attrs_len) = assemble(oids::CT_ASPA, &content, &c.ee, c.opts, c.tamper)?;
+        check_own_verifier(&bytes, c.tamper)?;
+        (bytes, attrs_len, c.ee.clone())
+    };
+    ensure!(window_is_wide(&c.ee), "harness: ASPA case without a wide validity window");
+    let val = validated(&spec);
+    let customer_in = val.as_ref().map(|v| within((c.customer as u128, c.customer as u128), &v.asn)).unwrap_or(false);
+    let no_ip = spec.v4 == Res::Missing && spec.v6 == Res::Missing;
+    let no_inherit = spec.asn != AsRes::Inherit;
+    let expect = c.tamper == Tamper::None && val.is_some() && customer_in && no_ip && no_inherit && c.crl_ok;
+    let issuer = issuer_for(&c.ee, c.tamper);
+    let got: Result<(), String> = match Aspa::decode(bytes.as_slice(), c.strict) {
+        Err(e) => Err(format!("decode: {}", e)),
+        Ok(aspa) => match aspa.process(issuer, c.strict, crl_callback(c.crl_ok)) {
+            Err(e) => Err(e.to_string()),
+            Ok((_, att)) => {
+                ensure_eq!(att.customer_as().into_u32(), c.customer, "customer of the accepted ASPA");
+                let prov: Vec<u32> = att.provider_as_set().iter().map(|a| a.into_u32()).collect();
+                ensure_eq!(prov, c.providers, "providers of the accepted ASPA");
+                Ok(())
+            }
+        },
+    };
+    label_common(obs, c.tamper, attrs_len, expect, c.strict);
+    obs.label(if c.builder { "writer:AspaBuilder" } else { "writer:der.rs" });
+    obs.label_if(val.is_none(), "ee-overclaim");
+    obs.label_if(val.is_some() && !customer_in, "customer-outside");
+    obs.label_if(!no_ip, "ee-has-ip");
+    obs.label_if(!no_inherit, "ee-as-inherit");
+    obs.label_if(!c.crl_ok, "crl-callback-err");
+    obs.nontrivial_if(c.providers.len() >= 2 || c.tamper != Tamper::None || attrs_len >= 128);
+    compare("aspa", expect, &got, attrs_len, &|| {
+        format!(
+            "tamper={:?} ee_ok={} customer_in={} no_ip={} no_inherit={} crl_ok={}",
+            c.tamper, val.is_some(), customer_in, no_ip, no_inherit, c.crl_ok
+        )
+    })
+}
+
+//============ sub-check: manifest ================================================
+
+#[derive(Clone, Debug, Serialize, Deserialize)]
+pub struct MftCase {
+    pub builder: bool,
+    pub number: u64,
+    pub this_update: i64,
+    pub next_update: i64,
+    /// (file name, seed of the 32-byte hash)
+    pub entries: Vec<(String, u8)>,
+    pub ee: EeSpec,
+    pub opts: Opts,
+    pub strict: bool,
+    pub eval: Eval,
+    pub tamper: Tamper,
+}
+
+fn mft_strategy(_: Tier) -> BoxedStrategy<MftCase> {
+    let name = ("[A-Za-z0-9_-]{1,12}", prop::sample::select(vec!["cer", "roa", "crl", "mft", "asa", "gbr", "ABC"]))
+        .prop_map(|(b, e)| format!("{}.{}", b, e));
+    (
+        prop::bool::weighted(0.4),
+        any::<u64>(),
+        ymd(2024, 1, 1)..ymd(2060, 1, 1),
+        0i64..400 * 86_400,
+        prop::collection::vec((name, any::<u8>()), 0..6),
+        ee_strategy(false),
+        opts_strategy(),
+        any::<bool>(),
+        eval_strategy(),
+        tamper_strategy(30),
+    )
+        .prop_map(|(builder, number, this_update, d, entries, mut ee, opts, strict, eval, tamper)| {
+            // RFC 9286: manifest EE certificates inherit
+            ee.v4 = Res::Inherit;
+            ee.v6 = Res::Inherit;
+            ee.asn = AsRes::Inherit;
+            let tamper = if builder && !tamper.post_hoc() { Tamper::None } else { tamper };
+            MftCase { builder, number, this_update, next_update: this_update + d, entries, ee: ee.normalize(), opts, strict, eval, tamper }
+        })
+        .boxed()
+}
+
+fn hash_of_seed(seed: u8) -> [u8; 32] {
+    keys::sha256(&[seed])
+}
+
+fn run_mft(c: &MftCase, obs: &mut Obs) -> CheckResult {
+    let issuer_idx = c.ee.issuer as usize % POOL_SIZE;
+    let (bytes, attrs_len) = if c.builder {
+        let content = ManifestContent::new(
+            c.number.into(),
+            lib_time(c.this_update),
+            lib_time(c.next_update),
+            DigestAlgorithm::default(),
+            c.entries.iter().map(|(n, s)| FileAndHash::new(Bytes::from(n.clone().into_bytes()), Bytes::copy_from_slice(&hash_of_seed(*s)))),
+        );
+        let signer = PoolSigner::with_first(c.ee.key as usize, 0);
+        let m = content
+            .into_manifest(sigobj_builder(&c.ee, c.opts.st), &signer, &signer.key(issuer_idx))
+            .map_err(|e| Fail::new(format!("into_manifest failed: {}", e)))?;
+        let mut bytes = m.to_captured().into_bytes().to_vec();
+        let attrs_len = verify_library_built(&bytes, issuer_idx)?;
+        tamper_bytes(&mut bytes, c.tamper)?;
+        (bytes, attrs_len)
+    } else {
+        let entries: Vec<der::MftEntry> = c
+            .entries
+            .iter()
+            .map(|(n, s)| der::MftEntry { name: n.clone().into_bytes(), hash: hash_of_seed(*s).to_vec(), unused: 0 })
+            .collect();
+        let content = der::manifest_content(
+            &c.number.to_be_bytes(),
+            TimeEnc::new(c.this_update, true),
+            TimeEnc::new(c.next_update, true),
+            &entries,
+            false,
+        );
+        let (bytes, attrs_len) = assemble(oids::CT_MFT, &content, &c.ee, c.opts, c.tamper)?;
+        check_own_verifier(&bytes, c.tamper)?;
+        (bytes, attrs_len)
+    };
+    let t = c.eval.time(c.ee.nb, c.ee.na);
+    let in_window = c.ee.nb <= t && t <= c.ee.na;
+    let expect = c.tamper == Tamper::None && in_window;
+    let issuer = issuer_for(&c.ee, c.tamper);
+    let got: Result<(), String> = match Manifest::decode(bytes.as_slice(), c.strict) {
+        Err(e) => Err(format!("decode: {}", e)),
+        Ok(m) => match m.validate_at(issuer, c.strict, lib_time(t)) {
+            Err(e) => Err(e.to_string()),
+            Ok((_, content)) => {
+                let got: Vec<(Vec<u8>, Vec<u8>)> = content.iter().map(|f| { let (n, h) = f.into_pair(); (n.to_vec(), h.to_vec()) }).collect();
+                let exp: Vec<(Vec<u8>, Vec<u8>)> =
+                    c.entries.iter().map(|(n, s)| (n.clone().into_bytes(), hash_of_seed(*s).to_vec())).collect();
+                ensure_eq!(got, exp, "entries of the accepted manifest");
+                ensure_eq!(content.len(), c.entries.len(), "len() of the accepted manifest");
+                Ok(())
+            }
+        },
+    };
+    label_common(obs, c.tamper, attrs_len, expect, c.strict);
+    obs.label(if c.builder { "writer:into_manifest" } else { "writer:der.rs" });
+    obs.label_if(!in_window, "out-of-window");
+    obs.nontrivial_if(c.entries.len() >= 2 || c.tamper != Tamper::None);
+    compare("manifest", expect, &got, attrs_len, &|| format!("tamper={:?} eval={:?} in_window={}", c.tamper, c.eval, in_window))
+}
+
+//============ sub-check: built (SignedObjectBuilder, arbitrary content type) ====
+
+#[derive(Clone, Debug, Serialize, Deserialize)]
+pub struct BuiltCase {
+    pub ct: Ct,
+    pub content: Content,
+    pub ee: EeSpec,
+    pub st: i64,
+    pub strict: bool,
+    pub eval: Eval,
+    pub tamper: Tamper,
+}
+
+fn built_strategy(_: Tier) -> BoxedStrategy<BuiltCase> {
+    (ct_strategy(), content_strategy(), ee_strategy(false), opts_strategy(), any::<bool>(), eval_strategy(), post_hoc_tamper_strategy(15))
+        .prop_map(|(ct, content, ee, opts, strict, eval, tamper)| BuiltCase { ct, content, ee, st: opts.st, strict, eval, tamper })
+        .boxed()
+}
+
+fn run_built(c: &BuiltCase, obs: &mut Obs) -> CheckResult {
+    let issuer_idx = c.ee.issuer as usize % POOL_SIZE;
+    let mut b = sigobj_builder(&c.ee, c.st);
+    match &c.ee.v4 {
+        Res::Missing => {}
+        Res::Inherit => b.set_v4_resources_inherit(),
+        Res::Blocks(bl) => b.build_v4_resource_blocks(|bb| bl.iter().for_each(|p| bb.push(Prefix::new(p.bits.0, p.len)))),
+    }
+    match &c.ee.v6 {
+        Res::Missing => {}
+        Res::Inherit => b.set_v6_resources_inherit(),
+        Res::Blocks(bl) => b.build_v6_resource_blocks(|bb| bl.iter().for_each(|p| bb.push(Prefix::new(p.bits.0, p.len)))),
+    }
+    match &c.ee.asn {
+        AsRes::Missing => {}
+        AsRes::Inherit => b.set_as_resources_inherit(),
+        AsRes::Blocks(bl) => {
+            b.build_as_resource_blocks(|bb| bl.iter().for_each(|&(lo, hi)| bb.push((Asn::from_u32(lo), Asn::from_u32(hi)))))
+        }
+    }
+    let signer = PoolSigner::with_first(c.ee.key as usize, 0);
+    let content = c.content.bytes();
+    let obj = b
+        .finalize(Oid(Bytes::from(c.ct.bytes())), Bytes::from(content.clone()), &signer, &signer.key(issuer_idx))
+        .map_err(|e| Fail::new(format!("SignedObjectBuilder::finalize failed: {}", e)))?;
+    let mut bytes = obj.encode_ref().to_captured(Mode::Der).into_bytes().to_vec();
+    // the builder signs under the Refuse policy
+    let spec = EeSpec { trim: false, ..c.ee.clone() };
+    let attrs_len = verify_library_built(&bytes, issuer_idx)?;
+    tamper_bytes(&mut bytes, c.tamper)?;
+    let res_ok = validated(&spec).is_some();
+    let t = c.eval.time(c.ee.nb, c.ee.na);
+    let in_window = c.ee.nb <= t && t <= c.ee.na;
+    let expect = c.tamper == Tamper::None && in_window && res_ok;
+    let issuer = issuer_for(&c.ee, c.tamper);
+    let got: Result<(), String> = match SignedObject::decode(bytes.as_slice(), c.strict) {
+        Err(e) => Err(format!("decode: {}", e)),
+        Ok(o) => o.validate_at(issuer, c.strict, lib_time(t)).map(|_| ()).map_err(|e| e.to_string()),
+    };
+    label_common(obs, c.tamper, attrs_len, expect, c.strict);
+    obs.label_if(!in_window, "out-of-window");
+    obs.label_if(!res_ok, "ee-overclaim");
+    obs.nontrivial_if(attrs_len >= 128 || c.tamper != Tamper::None);
+    compare("built", expect, &got, attrs_len, &|| format!("tamper={:?} eval={:?} in_window={} res_ok={}", c.tamper, c.eval, in_window, res_ok))
+}
+
+//============ sub-check: toolkit self test ======================================
+
+#[derive(Clone, Debug, Serialize, Deserialize)]
+pub struct Unit {
+    pub idx: u64,
+}
+
+fn run_selfcheck(_: &Unit, obs: &mut Obs) -> CheckResult {
+    obs.nontrivial();
+    der::selfcheck().map_err(|e| Fail::new(format!("der.rs self check failed: {}", e)))
+}
+
+const TAMPER_FLOORS: &[(&str, f64)] = &[
+    ("tamper:digest-attr", 0.02),
+    ("tamper:content-after", 0.02),
+    ("tamper:sig-other-bytes", 0.02),
+    ("tamper:wrong-key", 0.02),
+    ("tamper:sid", 0.02),
+    ("tamper:sig-flip", 0.02),
+    ("tamper:attrs-flip", 0.02),
+    ("tamper:content-flip", 0.02),
+    ("tamper:cert-tbs-flip", 0.02),
+    ("tamper:ee-wrong-signer", 0.02),
+    ("tamper:ee-aki", 0.02),
+    ("tamper:other-issuer", 0.02),
+    ("attrs>=128", 0.12),
+    ("attrs-126..129", 0.04),
+    ("expect-accept", 0.15),
+    ("out-of-window", 0.08),
+    ("ee-overclaim", 0.04),
+    ("crl-callback-err", 0.02),
+    ("signing-time:generalized", 0.15),
+    ("order:st,md,ct", 0.1),
+    ("order:st,ct,md", 0.1),
+    ("order:ct,st,md", 0.05),
+];
 
 pub fn property() -> Property {
-    Property { id: "C02", rule: "", assumptions: vec![], subs: vec![] }
+    Property {
+        id: "C02",
+        rule: RULE,
+        assumptions: vec![
+            "RSA PKCS#1 v1.5 / SHA-256 of aws-lc-rs (used directly by the harness) is correct; any change of a signed byte or of the signature value must be rejected",
+            "EE and trust-anchor certificates are built with the library's TbsCert (their validation is property C01)",
+            "Roa::process / Aspa::process / SignedObject::process read the wall clock: those cases use EE validity 2020-01-01..2045-01-01",
+            "acceptance is only demanded for RFC-conformant encodings (DER, attributes in SET OF order, signing time UTCTime through 2049)",
+        ],
+        subs: vec![
+            EnumSub { name: "der-selfcheck", count: |_, _| 1, make: |_, _, idx| Unit { idx }, run: run_selfcheck, exhaustive: false }.boxed(),
+            PropSub {
+                name: "generic",
+                strategy: generic_strategy,
+                cases: |t| t.pick(50_000, 1_000_000),
+                run: run_generic,
+                floors: TAMPER_FLOORS,
+            }
+            .boxed(),
+            PropSub {
+                name: "roa",
+                strategy: roa_strategy,
+                cases: |t| t.pick(30_000, 600_000),
+                run: run_roa,
+                floors: &[
+                    ("writer:RoaBuilder", 0.15),
+                    ("writer:der.rs", 0.3),
+                    ("uncovered-prefix", 0.1),
+                    ("all-covered", 0.15),
+                    ("expect-accept", 0.1),
+                    ("crl-callback-err", 0.05),
+                    ("ee-overclaim", 0.03),
+                    ("ee-trim", 0.08),
+                ],
+            }
+            .boxed(),
+            PropSub {
+                name: "aspa",
+                strategy: aspa_strategy,
+                cases: |t| t.pick(24_000, 400_000),
+                run: run_aspa,
+                floors: &[
+                    ("writer:AspaBuilder", 0.12),
+                    ("customer-outside", 0.1),
+                    ("ee-has-ip", 0.08),
+                    ("ee-as-inherit", 0.02),
+                    ("expect-accept", 0.15),
+                    ("crl-callback-err", 0.05),
+                ],
+            }
+            .boxed(),
+            PropSub {
+                name: "manifest",
+                strategy: mft_strategy,
+                cases: |t| t.pick(16_000, 250_000),
+                run: run_mft,
+                floors: &[("writer:into_manifest", 0.2), ("expect-accept", 0.2), ("out-of-window", 0.08)],
+            }
+            .boxed(),
+            PropSub {
+                name: "built",
+                strategy: built_strategy,
+                cases: |t| t.pick(24_000, 400_000),
+                run: run_built,
+                floors: &[("attrs>=128", 0.12), ("attrs-126..129", 0.04), ("expect-accept", 0.2), ("out-of-window", 0.08)],
+            }
+            .boxed(),
+        ],
+    }
 }
